@@ -163,6 +163,21 @@ impl Scenario for C06 {
                 p.faults.push(format!("L5-foreign-section-block-{osec}-inside-{sec}"));
             }
         }
+        if rng.chance(1, 40) {
+            // a long run of consecutive rejected records (lengths around powers of two): "after N bad lines give up"
+            // heuristics and counters that only successful lines reset
+            let recs = section_ranges(&lines);
+            if !recs.is_empty() {
+                let (i, sec) = *rng.pick(&recs);
+                let n = *rng.pick(&[8usize, 16, 31, 32, 33, 63, 64, 65, 100, 128, 129, 256]);
+                let src = lines[i].trim_end().to_string();
+                // half of the runs are uniform junk (rejected by every parser, so the run is really uninterrupted)
+                let junk = rng.chance(1, 2);
+                let bad: Vec<String> = (0..n).map(|k| if junk { format!("?,?{k},?") } else { corrupt_record(&mut rng, &src).unwrap_or_else(|| format!("{src},x")) }).collect();
+                lines.splice(i..i, bad);
+                p.faults.push(format!("L1-run-of-{n}-corrupted-{sec}-records"));
+            }
+        }
         p.data = lines.join("\n").into_bytes();
         p.set("dec", *rng.pick(&[0i64, 0, 0, 1, 2]));
         p
